@@ -13,7 +13,7 @@
       hnsw_entry_removed_empty      ¬ NonEmptyFull     known finding D2
       hnsw_small_exact_false        ¬ SmallExactFull   known finding D2
       hnsw_clusters_disconnect      ¬ ReachableFull    known finding D3
-      hnsw_removal_disconnects      ¬ ReachableFull (no pruning, entry live)   known finding D16
+      hnsw_removal_disconnects      ¬ ReachableFull (no pruning, entry live)   known finding D21
       hnsw_old_order_no_inlinks     the statement order before fix fb5d06f loses every in-link (D1, fixed)
   What holds is proved under explicit decidable hypotheses (`…_partial`).
 -/
@@ -176,20 +176,20 @@ theorem hnsw_clusters_disconnect : ¬ ReachableFull toy := by
     exact not_reachable_of_unreachableB pD3 opsD3 6 (by decide +kernel) s hr
       (h pD3 opsD3 s (by decide +kernel) (by decide +kernel) hr)
 
-def pD16 : Params := ⟨1, 2, 2, 2, by decide, by decide, by decide⟩
+def pD21 : Params := ⟨1, 2, 2, 2, by decide, by decide, by decide⟩
 /-- points 0..3 with efConstruction = M = 2: vertex 4 links to 2 and 3 only; both are
     removed (neither is the entry point), then flushed -/
-def opsD16 : List (Op Int) :=
+def opsD21 : List (Op Int) :=
   [.add 1 0 0, .add 2 1 0, .add 3 2 0, .add 4 3 0, .remove 2, .remove 3, .flush 1]
 
-/-- D16: with at most 2M vertices ever (no pruning) and a live entry point, removing
+/-- D21: with at most 2M vertices ever (no pruning) and a live entry point, removing
     cut vertices disconnects a live vertex — before and after `Flush`. -/
 theorem hnsw_removal_disconnects :
-    (∀ s, run toy pD16.init opsD16.dropLast = .ok s → ¬ Reachable s) ∧
-    (∀ s, run toy pD16.init opsD16 = .ok s → ¬ Reachable s) ∧
-    entryLive toy pD16.init opsD16 = true ∧ residentsLe toy (2 * pD16.M) pD16.init opsD16 = true :=
-  ⟨not_reachable_of_unreachableB pD16 opsD16.dropLast 4 (by decide +kernel),
-   not_reachable_of_unreachableB pD16 opsD16 4 (by decide +kernel),
+    (∀ s, run toy pD21.init opsD21.dropLast = .ok s → ¬ Reachable s) ∧
+    (∀ s, run toy pD21.init opsD21 = .ok s → ¬ Reachable s) ∧
+    entryLive toy pD21.init opsD21 = true ∧ residentsLe toy (2 * pD21.M) pD21.init opsD21 = true :=
+  ⟨not_reachable_of_unreachableB pD21 opsD21.dropLast 4 (by decide +kernel),
+   not_reachable_of_unreachableB pD21 opsD21 4 (by decide +kernel),
    by decide +kernel, by decide +kernel⟩
 
 /-! ### the repaired defect D1 (statement order of `HNSWIndex.Add` before fix fb5d06f) -/
@@ -223,7 +223,7 @@ theorem hnsw_old_order_no_inlinks :
 
 example : freshAdds opsD2 = true ∧ validPicks toy pD2.init opsD2 = true ∧
     liveSpec toy 1 opsD2 = [(2, 1), (3, 2)] := by decide +kernel
-example : freshAdds opsD16 = true ∧ validPicks toy pD16.init opsD16 = true ∧
-    liveSpec toy 1 opsD16 = [(1, 0), (4, 3)] := by decide +kernel
+example : freshAdds opsD21 = true ∧ validPicks toy pD21.init opsD21 = true ∧
+    liveSpec toy 1 opsD21 = [(1, 0), (4, 3)] := by decide +kernel
 
 end Comet.HNSW
